@@ -16,6 +16,7 @@
 #include "llbuild/BuildSystem/BuildSystemFrontend.h"
 #include "llbuild/BuildSystem/Command.h"
 #include "llbuild/BuildSystem/Tool.h"
+#include "llbuild/Commands/Commands.h"
 
 #include "llvm/ADT/ArrayRef.h"
 #include "llvm/ADT/Twine.h"
@@ -105,6 +106,8 @@ struct Run {
   int lanes = 2;
   bool serial = false;
   bool traceOn = false;
+  bool cliDriver = false;   // builds go through `llbuild buildsystem build` (lib/Commands/BuildSystemCommand.cpp) instead of the harness delegate
+  int cliBuilds = 0;
   std::vector<std::string> baseEnv;
 
   // observation
@@ -537,6 +540,7 @@ void Run::load() {
   lanes = (int)cfg->getn("lanes", 2);
   serial = cfg->getb("serial");
   traceOn = cfg->getb("trace");
+  cliDriver = cfg->getb("cli_driver") && (property == "C08" || property == "C09" || property == "C10");
   for (auto& e : cfg->geta("base_env")) baseEnv.push_back(e.s);
   if (const Json* d = plan.find("desc")) desc = Desc::fromJson(*d);
   simfs::fs().mkdirs(kWork);
@@ -781,7 +785,40 @@ void Run::opBuild(const Json& op) {
   // description is the one the process loaded - in the same one, which re-uses the build system and its engine
   bool keep = op.getb("reuse") && session && !descChangedSinceSession && property != "C04";
   bool ok;
-  {
+  bool viaCli = cliDriver && !byNode && !cancelOn && !killSpec;
+  if (viaCli) {
+    // the command-line driver: its own delegate (cancels the build on the first command failure, watches for SIGINT on a
+    // pipe), one process per build.  Only what the simulated compiler logs and the exit status are observable.
+    {
+      runner::Silence quiet;
+      session.reset();
+    }
+    std::vector<std::string> args = {"build", "--chdir", kWork, "-f", "build.llbuild", "--db", "build.db"};
+    if (serial) args.push_back("--serial");
+    else {
+      args.push_back("--jobs");
+      args.push_back(std::to_string(lanes));
+    }
+    if (!target.empty()) args.push_back(target);
+    int rc;
+    {
+      runner::Silence quiet;
+      sim::set_child_role("bs");
+      rc = llbuild::commands::executeBuildSystemCommand(args);
+      sim::set_child_role("");
+      // The driver's signal-watching thread is detached and shares a static pipe with the next invocation in this process -
+      // which a real `llbuild buildsystem build` never has.  Let it see the end of its pipe and exit first.
+      sim::block_until([]() { return sim::live_with_role_prefix("bs") == 0; }, 0, "cli-driver-threads");
+      sim::hb_acquire_thread_exits();
+    }
+    ok = rc == 0;
+    buildReturned = true;
+    cliBuilds++;
+    ev("cli-driver rc=" + std::to_string(rc));
+    // a failure cancels the rest of the build in this driver: what was running is interrupted, what completed around the
+    // cancellation may or may not have been recorded - the same relaxations as for a client's cancel()
+    if (!ok) bCancelIssued = true;
+  } else {
     runner::Silence quiet;
     sim::set_child_role("bs");
     if (!keep) {
@@ -898,6 +935,9 @@ void Run::opBuild(const Json& op) {
       if (execs[k].name == execs[i].name) n++;
     if (n > 1) viol("C09.5", "command " + execs[i].name + " was executed " + std::to_string(n) + " times in one build");
   }
+  if (viaCli)
+    for (const Cmd* c : order)
+      if (c->tool == "symlink" || c->tool == "mkdir") noClaim.insert(c->name);   // not observable without the delegate
   for (const Cmd* c : order)
     if ((c->tool == "symlink" || c->tool == "mkdir") && startedThisBuild.count(c->name)) {
       ran.insert(c->name);
@@ -1047,7 +1087,7 @@ void Run::opBuild(const Json& op) {
 
   // C11: discovered paths are delivered byte for byte, and malformed files fail the command
   for (const Cmd* c : order) {
-    if (c->tool != "shell" || c->deps.empty() || !ranOk.count(c->name) || bCancelIssued) continue;
+    if (c->tool != "shell" || c->deps.empty() || !ranOk.count(c->name) || bCancelIssued || viaCli) continue;
     std::string mode = failFlags.count(c->name) ? failFlags[c->name] : "";
     if (mode == "baddeps" || mode == "baddeps2") {
       if (ok || !failedThisBuild.count(c->name) == false) {
@@ -1811,6 +1851,7 @@ struct Gen {
     cfg.set("lanes", (int64_t)rng.range(1, 4));
     cfg.setb("serial", rng.chance(250));
     cfg.setb("trace", rng.chance(100));   // build-system tracing to a file
+    cfg.setb("cli_driver", rng.chance(150));
     cfg.set("policy", (int64_t)rng.below(3));
     static const int sticky[] = {500, 900, 990};
     cfg.set("sticky", sticky[rng.below(3)]);
@@ -2051,6 +2092,7 @@ public:
     c["discovered_dependencies_delivered"] += (uint64_t)run.discoveredSeen;
     c["leaked_descriptors"] += simos::fds().size();
     c["builds_in_a_reused_process"] += (uint64_t)run.reusedBuilds;
+    c["builds_through_the_command_line_driver"] += (uint64_t)run.cliBuilds;
     const std::string& p = run.property;
     if (p == "C08") run.res.nontrivial = run.descEdits > 0 && run.sourceEdits > 0 && run.skippedCommands > 0;
     else if (p == "C09") run.res.nontrivial = run.anyMixed || run.nullBuilds > 0;
